@@ -148,3 +148,32 @@ pub fn similar_ex(a: &tiny_skia::Pixmap, b: &tiny_skia::Pixmap, tol: u8, classif
     let ok = over80 <= 16 + n / 1000 && flat <= 4 + n / 2000;
     (ok, format!("{} px differ by more than 80, {} non-edge px by more than {}, max {}", over80, flat, tol, mx))
 }
+
+/// pixels that lie on an (anti-aliased) edge: some neighbour differs by more than 6 in a channel
+pub fn edge_mask(pm: &tiny_skia::Pixmap) -> Vec<bool> {
+    let (w, h) = (pm.width() as i32, pm.height() as i32);
+    let d = pm.data();
+    let px = |x: i32, y: i32| -> [u8; 4] {
+        let i = ((y * w + x) * 4) as usize;
+        [d[i], d[i + 1], d[i + 2], d[i + 3]]
+    };
+    let mut m = vec![false; (w * h) as usize];
+    for y in 0..h {
+        for x in 0..w {
+            let p = px(x, y);
+            'n: for dy in -1..=1 {
+                for dx in -1..=1 {
+                    let (xx, yy) = (x + dx, y + dy);
+                    if xx >= 0 && yy >= 0 && xx < w && yy < h {
+                        let q = px(xx, yy);
+                        if (0..4).any(|k| (p[k] as i32 - q[k] as i32).abs() > 6) {
+                            m[(y * w + x) as usize] = true;
+                            break 'n;
+                        }
+                    }
+                }
+            }
+        }
+    }
+    m
+}
